@@ -65,7 +65,7 @@ theorem committed_prefix_of_later {cfg : Config} (hnd : cfg.voterIds.Nodup) {s :
 
 /-- The frame: how the time invariants move along one step, given what the step adds to the
     ghost history. All additions carry the current time. -/
-theorem rinv_frame {cfg : Config} (hnd : cfg.voterIds.Nodup) {r : RState} (hr : RInv cfg r) (s' : AState)
+theorem rinv_frame {cfg : Config} (hnd : cfg.voterIds.Nodup) {r : RState} (hr : RInv cfg r) (d : Nat) (s' : AState)
     (hi' : Inv cfg s') (hext : Ext r.s s') (hrel : NodeRel r.s s')
     (newV : List (Nat × Nat × Nat × Nat)) (newE : List (Nat × Nat × Nat)) (newH : List (Nat × Nat × Nat × Nat))
     (newC : List CommitEv) (newR : List Read)
@@ -89,7 +89,7 @@ theorem rinv_frame {cfg : Config} (hnd : cfg.voterIds.Nodup) {r : RState} (hr : 
     -- reads
     (hR : ∀ rd ∈ newR, rd.time = r.now ∧ (r.s.nodes rd.leader).role = .leader ∧ rd.term = (r.s.nodes rd.leader).term ∧
       rd.readIndex = readIndexOf (r.s.nodes rd.leader) ∧ s' = r.s) :
-    RInv cfg { r with s := s', now := r.now + 1, voteAt := newV ++ r.voteAt, electAt := newE ++ r.electAt,
+    RInv cfg { r with s := s', now := r.now + 1 + d, voteAt := newV ++ r.voteAt, electAt := newE ++ r.electAt,
                       hbAck := newH ++ r.hbAck, commitAt := newC ++ r.commitAt, reads := newR ++ r.reads } := by
   have hi := hr.base
   have hglogKeep : ∀ T c g, r.s.glog T = some (c, g) → ∃ g', s'.glog T = some (c, g') ∧ g <+: g' := hext.glog
@@ -99,9 +99,9 @@ theorem rinv_frame {cfg : Config} (hnd : cfg.voterIds.Nodup) {r : RState} (hr : 
     intro T m c τ h
     rcases List.mem_append.mp h with hn | ho
     · obtain ⟨h1, h2⟩ := hV1 T m c τ hn
-      exact ⟨by show τ < r.now + 1; omega, h2⟩
+      exact ⟨by show τ < r.now + 1 + d; omega, h2⟩
     · obtain ⟨h1, h2⟩ := hr.vote_time T m c τ ho
-      exact ⟨by show τ < r.now + 1; omega, hext.votes _ h2⟩
+      exact ⟨by show τ < r.now + 1 + d; omega, hext.votes _ h2⟩
   · -- vote_has_time
     intro T m c h
     rcases hV2 T m c h with ho | hn
@@ -112,13 +112,13 @@ theorem rinv_frame {cfg : Config} (hnd : cfg.voterIds.Nodup) {r : RState} (hr : 
     intro T c τe h
     rcases List.mem_append.mp h with hn | ho
     · obtain ⟨h1, h2, Q, hQ, hv⟩ := hE1 T c τe hn
-      refine ⟨by show τe < r.now + 1; omega, h2, Q, hQ, ?_⟩
+      refine ⟨by show τe < r.now + 1 + d; omega, h2, Q, hQ, ?_⟩
       intro m hm
       obtain ⟨τv, hτv⟩ := hr.vote_has_time T m c (hv m hm)
       exact ⟨τv, by rw [h1]; exact (hr.vote_time T m c τv hτv).1, List.mem_append_right _ hτv⟩
     · obtain ⟨h1, ⟨g, hg⟩, Q, hQ, hv⟩ := hr.elect_ok T c τe ho
       obtain ⟨g', hg', _⟩ := hglogKeep T c g hg
-      refine ⟨by show τe < r.now + 1; omega, ⟨g', hg'⟩, Q, hQ, ?_⟩
+      refine ⟨by show τe < r.now + 1 + d; omega, ⟨g', hg'⟩, Q, hQ, ?_⟩
       intro m hm
       obtain ⟨τv, h2, h3⟩ := hv m hm
       exact ⟨τv, h2, List.mem_append_right _ h3⟩
@@ -131,20 +131,20 @@ theorem rinv_frame {cfg : Config} (hnd : cfg.voterIds.Nodup) {r : RState} (hr : 
   · -- msg_stamp
     intro m hm
     rcases hM m hm with ho | hn
-    · have := hr.msg_stamp m ho; show m.stamp < r.now + 1; omega
-    · show m.stamp < r.now + 1; omega
+    · have := hr.msg_stamp m ho; show m.stamp < r.now + 1 + d; omega
+    · show m.stamp < r.now + 1 + d; omega
   · -- hb_ok
     intro m T st τa h
     rcases List.mem_append.mp h with hn | ho
     · obtain ⟨h1, h2, h3, h4⟩ := hH m T st τa hn
-      refine ⟨by show τa < r.now + 1; omega, by omega, ?_⟩
+      refine ⟨by show τa < r.now + 1 + d; omega, by omega, ?_⟩
       intro T' c τv hv hlt
       rw [h4] at hv
       simp only [List.nil_append] at hv
       obtain ⟨_, hvote⟩ := hr.vote_time T' m c τv hv
       exact Nat.le_trans (hi.votes_term T' m c hvote) h3
     · obtain ⟨h1, h2, h3⟩ := hr.hb_ok m T st τa ho
-      refine ⟨by show τa < r.now + 1; omega, h2, ?_⟩
+      refine ⟨by show τa < r.now + 1 + d; omega, h2, ?_⟩
       intro T' c τv hv hlt
       rcases List.mem_append.mp hv with hvn | hvo
       · have := (hV1 T' m c τv hvn).1; omega
@@ -155,10 +155,10 @@ theorem rinv_frame {cfg : Config} (hnd : cfg.voterIds.Nodup) {r : RState} (hr : 
     · obtain ⟨h1, ⟨g, hg, hpre, hg'⟩, h3, h4, h5⟩ := hC e hn
       obtain ⟨τe, hτe⟩ := hr.glog_elect e.term e.leader g hg
       have hτlt := (hr.elect_ok e.term e.leader τe hτe).1
-      exact ⟨by show e.time < r.now + 1; omega, ⟨τe, by omega, List.mem_append_right _ hτe⟩, h3, h4, ⟨g, hg', hpre⟩, fun _ _ => h5⟩
+      exact ⟨by show e.time < r.now + 1 + d; omega, ⟨τe, by omega, List.mem_append_right _ hτe⟩, h3, h4, ⟨g, hg', hpre⟩, fun _ _ => h5⟩
     · obtain ⟨h1, ⟨τe, hτe1, hτe2⟩, h3, h4, ⟨g, hg, hpre⟩, h6⟩ := hr.commit_ok e ho
       obtain ⟨g', hg', hpp⟩ := hglogKeep _ _ g hg
-      refine ⟨by show e.time < r.now + 1; omega, ⟨τe, hτe1, List.mem_append_right _ hτe2⟩, h3, h4.mono hext (Nat.le_refl _), ⟨g', hg', hpre.trans hpp⟩, ?_⟩
+      refine ⟨by show e.time < r.now + 1 + d; omega, ⟨τe, hτe1, List.mem_append_right _ hτe2⟩, h3, h4.mono hext (Nat.le_refl _), ⟨g', hg', hpre.trans hpp⟩, ?_⟩
       intro hl ht
       rcases hL e.leader hl with ⟨hl0, ht0⟩ | ⟨_, hnone⟩
       · have := h6 hl0 (by rw [← ht0]; exact ht)
@@ -171,7 +171,7 @@ theorem rinv_frame {cfg : Config} (hnd : cfg.voterIds.Nodup) {r : RState} (hr : 
       subst hs
       have hg := hi.leader_glog rd.leader hl
       rw [← ht] at hg
-      refine ⟨by show rd.time < r.now + 1; omega, ⟨_, hg⟩, ?_⟩
+      refine ⟨by show rd.time < r.now + 1 + d; omega, ⟨_, hg⟩, ?_⟩
       intro _ _ e he hlt hle
       -- new commit events carry the current time: only old ones are earlier
       have heo : e ∈ r.commitAt := by
@@ -213,7 +213,7 @@ theorem rinv_frame {cfg : Config} (hnd : cfg.voterIds.Nodup) {r : RState} (hr : 
         · exact hp.length_le
     · obtain ⟨h1, ⟨g, hg⟩, h3⟩ := hr.read_ok rd ho
       obtain ⟨g', hg', _⟩ := hglogKeep _ _ g hg
-      refine ⟨by show rd.time < r.now + 1; omega, ⟨g', hg'⟩, ?_⟩
+      refine ⟨by show rd.time < r.now + 1 + d; omega, ⟨g', hg'⟩, ?_⟩
       intro hl ht e he hlt hle
       have heo : e ∈ r.commitAt := by
         rcases List.mem_append.mp he with hen | heo
@@ -253,6 +253,15 @@ theorem leaderkeep_set (s : AState) (i : Nat) (n' : ANode)
   · subst hj; simp only [setNode_same] at hl ⊢; exact h hl
   · rw [setNode_other s n' hj] at hl ⊢; exact ⟨hl, rfl⟩
 
+theorem rinv_tick_aux {cfg : Config} (hnd : cfg.voterIds.Nodup) {r : RState} (hr : RInv cfg r) (d : Nat) :
+    RInv cfg { r with now := r.now + 1 + d } := by
+  have hrel : NodeRel r.s r.s := ⟨fun j _ _ _ => ⟨List.prefix_refl _, Nat.le_refl _⟩, fun j => Nat.le_refl _⟩
+  have := rinv_frame hnd hr d r.s hr.base (Ext.refl_of _ _ rfl rfl rfl) hrel [] [] [] [] []
+    (by intro T v c τ h; simp at h) (by intro T v c h; exact Or.inl h) (by intro T c τ h; simp at h)
+    (by intro T c g h; exact Or.inl ⟨g, h⟩) (by intro a ha; exact Or.inl ha) (by intro a T st τ h; simp at h)
+    (by intro e he; simp at he) (by intro j hl'; exact Or.inl ⟨hl', rfl⟩) (by intro rd h; simp at h)
+  simpa using this
+
 theorem rinv_step {cfg : Config} (hnd : cfg.voterIds.Nodup) {r r' : RState} (hr : RInv cfg r) (h : RStep cfg r r') : RInv cfg r' := by
   have hi := hr.base
   cases h with
@@ -262,7 +271,7 @@ theorem rinv_step {cfg : Config} (hnd : cfg.voterIds.Nodup) {r r' : RState} (hr 
     have hext := step_ext hnd hi hs
     have hrel : NodeRel r.s (timeoutS r.s i) := noderel_set r.s i { r.s.nodes i with term := (r.s.nodes i).term + 1, role := .candidate } (by simp) (by intro h; simp at h) _ rfl
     have hkeep := leaderkeep_set r.s i { r.s.nodes i with term := (r.s.nodes i).term + 1, role := .candidate } (by intro h; simp at h) (timeoutS r.s i) rfl
-    have := rinv_frame hnd hr (timeoutS r.s i) hi' hext hrel [((r.s.nodes i).term + 1, i, i, r.now)] [] [] [] []
+    have := rinv_frame hnd hr 0 (timeoutS r.s i) hi' hext hrel [((r.s.nodes i).term + 1, i, i, r.now)] [] [] [] []
       (by intro T m c τ h; simp at h; obtain ⟨h1, h2, h3, h4⟩ := h; subst h1 h2 h3 h4; exact ⟨rfl, by simp [timeoutS]⟩)
       (by intro T m c h
           simp only [timeoutS, List.mem_cons] at h
@@ -289,7 +298,7 @@ theorem rinv_step {cfg : Config} (hnd : cfg.voterIds.Nodup) {r r' : RState} (hr 
           by_cases hlt : (r.s.nodes m).term < q.term
           · simp [hlt] at h
           · simp [hlt] at h; exact ⟨h, by simp; omega⟩) (grantS r.s m q) rfl
-    have := rinv_frame hnd hr (grantS r.s m q) hi' hext hrel [(q.term, m, q.cand, r.now)] [] [] [] []
+    have := rinv_frame hnd hr 0 (grantS r.s m q) hi' hext hrel [(q.term, m, q.cand, r.now)] [] [] [] []
       (by intro T v c τ h; simp at h; obtain ⟨h1, h2, h3, h4⟩ := h; subst h1 h2 h3 h4; exact ⟨rfl, by simp [grantS]⟩)
       (by intro T v c h
           simp only [grantS, List.mem_cons] at h
@@ -321,7 +330,7 @@ theorem rinv_step {cfg : Config} (hnd : cfg.voterIds.Nodup) {r r' : RState} (hr 
         exact hi.glog_cand _ c g hgl rfl hc
     have hrel : NodeRel r.s (becomeLeaderS r.s c) := noderel_set r.s c { r.s.nodes c with role := .leader, log := (r.s.nodes c).log ++ [⟨(r.s.nodes c).term, 0⟩] } (Nat.le_refl _)
       (by intro _ h; rw [hc] at h; simp at h) _ rfl
-    have := rinv_frame hnd hr (becomeLeaderS r.s c) hi' hext hrel [] [((r.s.nodes c).term, c, r.now)] [] [] []
+    have := rinv_frame hnd hr 0 (becomeLeaderS r.s c) hi' hext hrel [] [((r.s.nodes c).term, c, r.now)] [] [] []
       (by intro T m c' τ h; simp at h)
       (by intro T m c' h; exact Or.inl h)
       (by intro T c' τ h
@@ -357,7 +366,7 @@ theorem rinv_step {cfg : Config} (hnd : cfg.voterIds.Nodup) {r r' : RState} (hr 
     have hkeep := leaderkeep_set r.s l { r.s.nodes l with log := (r.s.nodes l).log ++ [⟨(r.s.nodes l).term, p⟩] }
       (by intro h; exact ⟨h, rfl⟩) (clientAppendS r.s l p) rfl
     have hg := hi.leader_glog l hl
-    have := rinv_frame hnd hr (clientAppendS r.s l p) hi' hext hrel [] [] [] [] []
+    have := rinv_frame hnd hr 0 (clientAppendS r.s l p) hi' hext hrel [] [] [] [] []
       (by intro T m c τ h; simp at h)
       (by intro T m c h; exact Or.inl h)
       (by intro T c τ h; simp at h)
@@ -377,7 +386,7 @@ theorem rinv_step {cfg : Config} (hnd : cfg.voterIds.Nodup) {r r' : RState} (hr 
     have hi' := inv_step hnd hi hs
     have hext := step_ext hnd hi hs
     have hrel : NodeRel r.s (sendAES r.s l prev k r.now) := ⟨fun j _ _ _ => ⟨List.prefix_refl _, Nat.le_refl _⟩, fun j => Nat.le_refl _⟩
-    have := rinv_frame hnd hr (sendAES r.s l prev k r.now) hi' hext hrel [] [] [] [] []
+    have := rinv_frame hnd hr 0 (sendAES r.s l prev k r.now) hi' hext hrel [] [] [] [] []
       (by intro T m c τ h; simp at h)
       (by intro T m c h; exact Or.inl h)
       (by intro T c τ h; simp at h)
@@ -398,7 +407,7 @@ theorem rinv_step {cfg : Config} (hnd : cfg.voterIds.Nodup) {r r' : RState} (hr 
     have hext := step_ext hnd hi hs
     have hrel : NodeRel r.s (recvAEokS r.s n m) := noderel_set r.s n { term := m.term, role := .follower, log := merge (r.s.nodes n).log m.prev m.entries, commit := max (r.s.nodes n).commit (min m.commit (m.prev + m.entries.length)) } ht (by intro h; simp at h) _ rfl
     have hkeep := leaderkeep_set r.s n { term := m.term, role := .follower, log := merge (r.s.nodes n).log m.prev m.entries, commit := max (r.s.nodes n).commit (min m.commit (m.prev + m.entries.length)) } (by intro h; simp at h) (recvAEokS r.s n m) rfl
-    have := rinv_frame hnd hr (recvAEokS r.s n m) hi' hext hrel [] [] [(n, m.term, m.stamp, r.now)] [] []
+    have := rinv_frame hnd hr 0 (recvAEokS r.s n m) hi' hext hrel [] [] [(n, m.term, m.stamp, r.now)] [] []
       (by intro T v c τ h; simp at h)
       (by intro T v c h; exact Or.inl h)
       (by intro T c τ h; simp at h)
@@ -417,7 +426,7 @@ theorem rinv_step {cfg : Config} (hnd : cfg.voterIds.Nodup) {r r' : RState} (hr 
     have hext := step_ext hnd hi hs
     have hrel : NodeRel r.s (recvAErejS r.s n m) := noderel_set r.s n { r.s.nodes n with term := m.term, role := .follower } ht (by intro h; simp at h) _ rfl
     have hkeep := leaderkeep_set r.s n { r.s.nodes n with term := m.term, role := .follower } (by intro h; simp at h) (recvAErejS r.s n m) rfl
-    have := rinv_frame hnd hr (recvAErejS r.s n m) hi' hext hrel [] [] [(n, m.term, m.stamp, r.now)] [] []
+    have := rinv_frame hnd hr 0 (recvAErejS r.s n m) hi' hext hrel [] [] [(n, m.term, m.stamp, r.now)] [] []
       (by intro T v c τ h; simp at h)
       (by intro T v c h; exact Or.inl h)
       (by intro T c τ h; simp at h)
@@ -442,7 +451,7 @@ theorem rinv_step {cfg : Config} (hnd : cfg.voterIds.Nodup) {r r' : RState} (hr 
     have hnode : (advanceCommitS r.s l i).nodes l = { r.s.nodes l with commit := max (r.s.nodes l).commit i } := setNode_same _ _ _
     have hc' := hi'.commit_ok l
     rw [hnode] at hc'
-    have := rinv_frame hnd hr (advanceCommitS r.s l i) hi' hext hrel [] [] []
+    have := rinv_frame hnd hr 0 (advanceCommitS r.s l i) hi' hext hrel [] [] []
       [⟨l, (r.s.nodes l).term, max (r.s.nodes l).commit i, (r.s.nodes l).log.take (max (r.s.nodes l).commit i), r.now⟩] []
       (by intro T v c τ h; simp at h)
       (by intro T v c h; exact Or.inl h)
@@ -465,7 +474,7 @@ theorem rinv_step {cfg : Config} (hnd : cfg.voterIds.Nodup) {r r' : RState} (hr 
     have hext := step_ext hnd hi hs
     have hrel : NodeRel r.s (higherTermS r.s n t) := noderel_set r.s n { r.s.nodes n with term := t, role := .follower } (by simp; omega) (by intro h; simp at h) _ rfl
     have hkeep := leaderkeep_set r.s n { r.s.nodes n with term := t, role := .follower } (by intro h; simp at h) (higherTermS r.s n t) rfl
-    have := rinv_frame hnd hr (higherTermS r.s n t) hi' hext hrel [] [] [] [] []
+    have := rinv_frame hnd hr 0 (higherTermS r.s n t) hi' hext hrel [] [] [] [] []
       (by intro T v c τ h; simp at h) (by intro T v c h; exact Or.inl h) (by intro T c τ h; simp at h)
       (by intro T c g h; exact Or.inl ⟨g, h⟩) (by intro a ha; exact Or.inl ha) (by intro a T st τ h; simp at h)
       (by intro e he; simp at he) (by intro j hl'; exact Or.inl (hkeep j hl')) (by intro rd h; simp at h)
@@ -476,19 +485,20 @@ theorem rinv_step {cfg : Config} (hnd : cfg.voterIds.Nodup) {r r' : RState} (hr 
     have hext := step_ext hnd hi hs
     have hrel : NodeRel r.s (crashS r.s n) := noderel_set r.s n { r.s.nodes n with role := .follower, commit := 0 } (Nat.le_refl _) (by intro h; simp at h) _ rfl
     have hkeep := leaderkeep_set r.s n { r.s.nodes n with role := .follower, commit := 0 } (by intro h; simp at h) (crashS r.s n) rfl
-    have := rinv_frame hnd hr (crashS r.s n) hi' hext hrel [] [] [] [] []
+    have := rinv_frame hnd hr 0 (crashS r.s n) hi' hext hrel [] [] [] [] []
       (by intro T v c τ h; simp at h) (by intro T v c h; exact Or.inl h) (by intro T c τ h; simp at h)
       (by intro T c g h; exact Or.inl ⟨g, h⟩) (by intro a ha; exact Or.inl ha) (by intro a T st τ h; simp at h)
       (by intro e he; simp at he) (by intro j hl'; exact Or.inl (hkeep j hl')) (by intro rd h; simp at h)
     simpa using this
   | readSubmit l hl =>
     have hrel : NodeRel r.s r.s := ⟨fun j _ _ _ => ⟨List.prefix_refl _, Nat.le_refl _⟩, fun j => Nat.le_refl _⟩
-    have := rinv_frame hnd hr r.s hi (Ext.refl_of _ _ rfl rfl rfl) hrel [] [] [] [] [⟨l, (r.s.nodes l).term, readIndexOf (r.s.nodes l), r.now⟩]
+    have := rinv_frame hnd hr 0 r.s hi (Ext.refl_of _ _ rfl rfl rfl) hrel [] [] [] [] [⟨l, (r.s.nodes l).term, readIndexOf (r.s.nodes l), r.now⟩]
       (by intro T v c τ h; simp at h) (by intro T v c h; exact Or.inl h) (by intro T c τ h; simp at h)
       (by intro T c g h; exact Or.inl ⟨g, h⟩) (by intro a ha; exact Or.inl ha) (by intro a T st τ h; simp at h)
       (by intro e he; simp at he) (by intro j hl'; exact Or.inl ⟨hl', rfl⟩)
       (by intro rd h; simp only [List.mem_singleton] at h; subst h; exact ⟨rfl, hl, rfl, rfl, rfl⟩)
     simpa using this
+  | tick d => exact rinv_tick_aux hnd hr d
 
 theorem rinv_reachable {cfg : Config} (hnd : cfg.voterIds.Nodup) {r : RState} (h : RReachable cfg r) : RInv cfg r := by
   induction h with
